@@ -209,6 +209,20 @@ fn check_chain(c: &LongChain<'_>, want: &[u8], what: &str) -> Result<(), String>
         }
     }
     {
+        // Clone::clone_from into a chain of another length (what Vec / Option::clone_from use) gives an equal chain
+        let mut d = c.clone();
+        if d.has_remaining() {
+            d.advance(1);
+        } else {
+            d.push(CowBytes::from_static(b"xy"));
+        }
+        d.clone_from(c);
+        let cat: Vec<u8> = <LongChain<'_> as AsRef<[CowBytes<'_>]>>::as_ref(&d).iter().flat_map(|ch| ch.as_ref().to_vec()).collect();
+        if d.len() != want.len() || d.remaining() != want.len() || d.is_empty() != want.is_empty() || cat != want {
+            return Err(format!("{what}: after clone_from() the copy reports len() {} / remaining() {} and holds {}, the original holds {}", d.len(), d.remaining(), hex(&cat), hex(want)));
+        }
+    }
+    {
         let mut io = [std::io::IoSlice::new(&[]); 48];
         let n = c.chunks_vectored(&mut io);
         let mut cat = Vec::new();
